@@ -109,3 +109,18 @@ def run_exec(ctx, prop):
     ctx.cov.update({"evaluations": runs, "distinct_nontrivial": nontrivial, "traces_validated_against_impl": 2 * n,
                     "graphs_enumerated_by_tlc": ng, "graphs_executed": n})
     ctx.add_samples(samples)
+
+
+def run_realops(ctx, prop):
+    """Real operators with an in-place path under a history of strategies (vh-graph exec-realops); the
+    bits of every value must not depend on the strategy (C02) / on what was run before (C25)."""
+    t = ctx.path("realops.ndjson")
+    ctx.harness("vh-graph", ["exec-realops", "--cases", 600 if ctx.quick else 20000, "--out", t])
+    res = ctx.tlc_trace("graph/Trace_RealOps", "graph/Trace_RealOps.cfg", t, timeout=3000, ncases_key="rcase")
+    mine = [b for b in res["bad"] if b["sig"].get("prop") == prop]
+    for b in res["bad"]:
+        if b["sig"].get("prop") != prop:
+            ctx.cov["notes"].append("predicate of %s failed in this trace: %s" % (b["sig"].get("prop"), json.dumps(b["sig"], sort_keys=True)))
+    ctx.judge(mine, "vh-graph exec-realops", "graph/Trace_RealOps", "graph/Trace_RealOps.cfg")
+    ctx.cov["real_operator_runs"] = res["stats"].get("runs", 0)
+    ctx.cov["evaluations"] += res["stats"].get("runs", 0)
